@@ -22,6 +22,7 @@ type websocket struct {
 	socket *types.WebSocketConn
 	mu     sync.Mutex
 	start  sync.Once
+	sends  sendTracker
 }
 
 // WebSocket transport
@@ -160,6 +161,7 @@ func (w *websocket) onMessage(data types.BufferInterface) {
 // Writes a packet payload.
 func (w *websocket) Send(packets []*packet.Packet) {
 	w.SetWritable(false)
+	w.sends.begin()
 	go w.send(packets)
 }
 func (w *websocket) send(packets []*packet.Packet) {
@@ -171,6 +173,9 @@ func (w *websocket) send(packets []*packet.Packet) {
 
 	w.mu.Lock()
 	defer w.mu.Unlock()
+	// the batch is on the wire (or has failed) once the loop is left: an
+	// orderly close waits for this
+	defer w.sends.end()
 
 	for _, packet := range packets {
 		// always creates a new object since ws modifies it
@@ -265,7 +270,17 @@ func (w *websocket) write(data types.BufferInterface, compress bool) {
 // Closes the transport.
 func (w *websocket) DoClose(fn types.Callable) {
 	ws_log.Debug(`closing`)
-	defer w.socket.Close()
+	if fn == nil || w.Discarded() {
+		// the transport is torn down (the session has failed: ping timeout,
+		// transport or parse error; a candidate that is not taken) or thrown
+		// away: nothing waits for a peer that may not be reading
+		defer w.socket.Close()
+	} else {
+		// a close that was asked for (Socket.Close(false), which passes the
+		// callback that completes it) lets what Send has already handed to
+		// the writer reach the wire first
+		defer closeAfter(w.sends.done(), func() { w.socket.Close() })
+	}
 	if fn != nil {
 		fn()
 	}
